@@ -1,26 +1,32 @@
 // C06 (partial): eigen-decomposition on the inputs whose iteration exits at once: 1x1, symmetric 2x2 (one implicit QL sweep), 2x2 diagonal and triangular non-symmetric input (REAL mode, sqrt axiomatised).
 #include "hmat.h"
 #include <Bpp/Numeric/Matrix/EigenValue.h>
+#include <cmath>
 using namespace std;
 extern "C" void verif_harness() {
   int which = __sym_choose("harness", HLO, HHI);
   int ka = anyKind("A");
-  int n = which == 0 ? 1 : (which >= 4 ? 3 : 2);
+  int n = which == 0 ? 1 : (which == 4 ? 3 : 2);
   MP A = mkMatrix(ka, n, n);
   if (which == 0) (*A)(0, 0) = symd("a00");
   else if (which == 1) { double a = symd("a"), b = symd("b"), c = symd("c"); SYM_ASSUME(!(b == 0)); (*A)(0, 0) = a; (*A)(0, 1) = b; (*A)(1, 0) = b; (*A)(1, 1) = c; }           // symmetric, coupled
   else if (which == 2) { double a = symd("a"), c = symd("c"); (*A)(0, 0) = a; (*A)(0, 1) = 0; (*A)(1, 0) = 0; (*A)(1, 1) = c; }                                                     // diagonal (symmetric path)
   else if (which == 4) { double a = symd("a"), b = symd("b"), c = symd("c"), d = symd("d"); int pos = __sym_choose("isolated", 0, 2);      // 3x3 symmetric, a coupled 2x2 block plus an isolated diagonal entry (the QL iteration splits)
     int p = pos == 0 ? 1 : 0, q = pos == 2 ? 1 : 2; for (int i = 0; i < 3; i++) for (int j = 0; j < 3; j++) (*A)(i, j) = 0; (*A)(p, p) = a; (*A)(q, q) = c; (*A)(p, q) = b; (*A)(q, p) = b; (*A)(pos, pos) = d; SYM_ASSUME(b > 0.001 || b < -0.001); }
+  else if (which == 5) { double a = symd("a"), b = symd("b"); int lower = __sym_choose("lower", 0, 1); (*A)(0, 0) = a; (*A)(1, 1) = a; (*A)(0, 1) = lower ? 0 : b; (*A)(1, 0) = lower ? b : 0; SYM_ASSUME(b > 0.001 || b < -0.001); }   // defective: a 2x2 Jordan block (repeated eigenvalue, one eigenvector)
   else { double a = symd("a"), b = symd("b"), c = symd("c"); int lower = __sym_choose("lower", 0, 1); SYM_ASSUME(!(b == 0) && !(a == c)); (*A)(0, 0) = a; (*A)(1, 1) = c; (*A)(0, 1) = lower ? 0 : b; (*A)(1, 0) = lower ? b : 0; }   // triangular, distinct eigenvalues (non-symmetric path)
   // moderate magnitudes and a clearly non-negligible coupling: the kernels treat an off-diagonal entry below 2^-52 times the neighbouring diagonal as zero
   // (a relative-epsilon decision; the exact equations below are claimed away from that regime)
-  for (int i = 0; i < n; i++) for (int j = 0; j < n; j++) { double x = (*A)(i, j); SYM_ASSUME(x >= -100 && x <= 100); if (i != j && which != 2 && which != 4 && !(which == 3 && ((*A)(i, j) == 0))) SYM_ASSUME(x > 0.001 || x < -0.001); }
+  for (int i = 0; i < n; i++) for (int j = 0; j < n; j++) { double x = (*A)(i, j); SYM_ASSUME(x >= -100 && x <= 100); if (i != j && which != 2 && which != 4 && which != 5 && !(which == 3 && ((*A)(i, j) == 0))) SYM_ASSUME(x > 0.001 || x < -0.001); }
   EigenValue<double> ev(*A);
   const RowMatrix<double>& V = ev.getV(); const RowMatrix<double>& D = ev.getD();
   vector<double> re = ev.getRealEigenValues(), im = ev.getImagEigenValues();
   SYM_ASSERT((int)V.getNumberOfRows() == n && (int)V.getNumberOfColumns() == n && (int)D.getNumberOfRows() == n && (int)re.size() == n && (int)im.size() == n, "decomposition has the wrong dimensions");
   SYM_ASSERT(ev.isSymmetric() == (which <= 2 || which == 4), "symmetry dispatch differs from A == transpose(A)");
+  if (which == 5) {   // defective input: the eigenvector column is obtained by dividing by eps.|A| instead of 0, so A.V = V.D holds to a small multiple of eps.|A|.|V| (the property's tolerance), not exactly
+    double nA = 0, nV = 0; for (int i = 0; i < n; i++) for (int j = 0; j < n; j++) { nA += fabs((*A)(i, j)); nV += fabs(V(i, j)); }
+    for (int i = 0; i < n; i++) for (int j = 0; j < n; j++) { double av = 0, vd = 0; for (int k = 0; k < n; k++) { av += (*A)(i, k) * V(k, j); vd += V(i, k) * D(k, j); } SYM_ASSERT(fabs(av - vd) <= 16 * 2.220446049250313e-16 * nA * nV, "A.V differs from V.D by more than 16 eps |A| |V|"); }
+  } else
   for (int i = 0; i < n; i++) for (int j = 0; j < n; j++) { double av = 0, vd = 0; for (int k = 0; k < n; k++) { av += (*A)(i, k) * V(k, j); vd += V(i, k) * D(k, j); } SYM_ASSERT_EQ(av, vd, "A.V differs from V.D"); }
   double tr = 0, sr = 0; for (int i = 0; i < n; i++) { tr += (*A)(i, i); sr += re[i]; SYM_ASSERT(im[i] == 0.0, "a real spectrum is reported with an imaginary part"); SYM_ASSERT_EQ(D(i, i), re[i], "real eigenvalue list is not the diagonal of D"); }
   SYM_ASSERT_EQ(tr, sr, "trace is not the sum of the eigenvalues");
